@@ -53,7 +53,11 @@ def main(path):
     except Exception as e:
         tb = traceback.extract_tb(e.__traceback__)
         where = f"{os.path.basename(tb[-1].filename)}:{tb[-1].name}" if tb else "?"
-        out.update(reproduced=True, key=f"UNCAUGHT:{type(e).__name__}@{where}",
+        in_harness = bool(tb) and ("/verif/harness/" in tb[-1].filename or "/verif/refs/" in tb[-1].filename
+                                    or "/verif/symx/" in tb[-1].filename)
+        # an exception raised by a line of the harness itself (say, an internal attribute it looks at is
+        # gone) says the harness no longer fits the code, not that the property is broken
+        out.update(reproduced=True, key=("HARNESS-UNCAUGHT:" if in_harness else "UNCAUGHT:") + f"{type(e).__name__}@{where}",
                    detail="".join(traceback.format_exception(type(e), e, e.__traceback__))[-1500:])
     if out["reproduced"] and not out["key"]:
         key_fn = getattr(mod, "finding_key", None)
